@@ -1,5 +1,7 @@
 import Texel.Proofs.SnapF
 import Texel.Proofs.RingShape
+import Texel.Proofs.NoTwice
+import Texel.Proofs.NoCollapse
 /-! # C05 — returned rings are well formed, correctly oriented, collapse policy respected
 
 Proved here on the functional model `snapPolygonF` (all polygons, valid or not, all configurations):
@@ -10,7 +12,11 @@ Proved here on the functional model `snapPolygonF` (all polygons, valid or not, 
   ≥ 0), the holes clockwise (≤ 0), the opposite under the reverse flag; collapsed parts are single rings of at most two vertices and
   absent without the option (`C05_shape`, `C05_at_least_three`; the signed area is the model's `area2`, proved equal to the shoelace sum
   and negated by reversal in `Proofs/Area.lean`).
-The remaining ring-level clauses (no closing duplicate, no equal neighbours, no vertex twice) are evaluated by the exact oracle `oracleC05`
+* no ring of an assembled polygon visits a vertex twice — hence none repeats its first vertex at the end and none has two equal
+  neighbours — `C05_no_vertex_twice_partial`: for every polygon inside the grid, under the explicit hypothesis `KmpNoDup` (spike removal
+  returns no more copies of a vertex than it was given; it only cuts runs out, checked on every ring of the `kmp` stream). The proof is
+  the stack invariant of `splitRing` (`Proofs/SplitInv.lean`) and the fact that the repeated-vertex flags are exact (`Proofs/HitCount.lean`).
+These ring-level clauses are also evaluated by the exact oracle `oracleC05`
 on every implementation answer and by the `snap`/`split` correspondence; their proofs need the inside of `splitRing`
 (see DESIGN §6 C05). Core-only proofs. -/
 namespace Texel.C05
@@ -153,6 +159,21 @@ theorem C05_at_least_three (g : Grid) (rings : List (List Pt)) (levels : List Na
   rcases List.mem_cons.1 this with h5 | h5
   · subst h5; exact hs
   · exact (hh r h5).1
+
+/-- **no vertex twice** (partial: under `KmpNoDup`, see the file comment): in everything `snapPolygonF` returns for a polygon inside the
+grid on a level `l ≤ depth`, every ring of every assembled polygon is free of repetitions; the collapsed parts (`pls`, rings of one or two
+vertices that keep-points-and-lines appends) are not constrained here -/
+theorem C05_no_vertex_twice_partial (hk : KmpNoDup) (g : Grid) (hres : 0 < g.res) (rings : List (List Pt)) (levels : List Nat) (cfg : Config)
+    (res : List (Nat × Array Poly)) (h : snapPolygonF g rings levels cfg = .ok res) (hlev : ∀ l ∈ levels, l ≤ g.depth)
+    (l : Nat) (polys : Array Poly) (hm : (l, polys) ∈ res) :
+    ∃ core : Array Poly, ∃ pls : Array (Array P), polys = core ++ pls.map (fun pl => #[pl]) ∧ ∀ pg ∈ core, ∀ r ∈ pg, r.toList.Nodup := by
+  obtain ⟨addrs, hins, hl, hp⟩ := snapPolygonF_mem g rings levels cfg res h l polys hm
+  exact processLevel_nodup hk g hres rings addrs hins cfg l (hlev l hl) polys hp
+
+/-- a ring without repetition does not end in its first vertex and has no two equal neighbours -/
+theorem nodup_no_closing_duplicate (r : List P) (h : r.Nodup) (h2 : 2 ≤ r.length) : r.head? ≠ r.getLast? := by
+  have := nodup_head_ne_last r h h2
+  intro hh; rw [hh] at this; simp at this
 
 -- non-vacuity: an L-shaped polygon with a hole on a 64x64 grid at level 4: one polygon, shell with positive and hole with negative area
 #guard (snapPolygonF ⟨0, 0, 4, 6⟩ [[⟨8, 8⟩, ⟨200, 8⟩, ⟨200, 200⟩, ⟨8, 200⟩], [⟨60, 60⟩, ⟨60, 140⟩, ⟨140, 140⟩, ⟨140, 60⟩]] [4] ⟨false, false, false⟩).toOption.map
